@@ -52,11 +52,11 @@ ASSUMPTIONS = [
     "batches are generated from the treesim model (C09): operations whose outcome breezy decides by heuristics, and the states listed in treesim.GUARDS (reported working-tree defects), are not generated",
     "BASE is clean (everything versioned and committed, nothing unknown): the sibling branch (sprout) then starts from the same files",
     "disjoint = ownership by first path component; a batch never touches, creates, moves into or removes anything the other side owns, so the union is the per-owner overlay; changes of one side inside a directory renamed by the other side are not generated",
-    "identical = the same operations with the same explicit file ids on both sides; for 'identical' and 'other_is_base' the expected tree is the tree before the merge (the laws demand no conflicts; that the common change survives is taken as part of 'three-way merge')",
+    "identical = the same operations with the same explicit file ids on both sides, and THIS's versioned view (what the merge sees: a versioned file that is missing from disk is not 'deleted') equals OTHER's committed snapshot - otherwise THIS commits too; for 'identical' and 'other_is_base' the expected tree is the tree before the merge (the laws demand no conflicts; that the common change survives is taken as part of 'three-way merge')",
     "git: directories are not tracked: the disk is compared without directories; file ids are not compared; symlinks and exec bits are",
     "the versioned set, kinds, contents, exec bits and ids are compared; the kind the dirstate had recorded for an entry, pending-merge parents and merge-hashes are not",
     "text merges never run here (no law lets both sides change one file differently): WeaveMerger / LCAMerger differ from Merge3Merger only in entry enumeration and options; C19 covers the text merge",
-    "guard git_symlink_became_dir (reported defect): no git THIS tree in which a tracked symlink has been replaced by a directory (GitWorkingTree.iter_entries_by_dir / iter_references raise OSError EINVAL from readlink, so every merge into such a tree fails); lifted in a share of the runs once known_findings.json has an open entry [C17, known-defect, git_symlink_became_dir], or with VERIF_UNGUARDED=1",
+    "guards (reported defects; lifted in a share of the runs once known_findings.json has an open entry [C17, known-defect, <guard>], or with VERIF_UNGUARDED=1): git_symlink_replaced = no git THIS tree in which a tracked symlink has been replaced by a file or directory (GitWorkingTree.iter_entries_by_dir / iter_references raise OSError EINVAL from readlink, so every merge into such a tree fails); git_dir_file_swap = no git merge in which one path is a directory in one of BASE / OTHER / THIS (incl. unversioned files of THIS) and a file or symlink in another (path-keyed trans ids: the merge reports bogus conflicts or raises NoSuchFile); git_dir_rename = no git batch renames or moves a directory (the same directory rename on both sides, uncommitted in THIS, is reported as 'Text conflict in <new dir>')",
     "git: BASE has no empty directories (untracked; a merge that deletes the last tracked file of their parent reports a 'deleting parent' problem as 'Text conflict in <dir>')",
     "if building BASE / THIS / OTHER itself raises or disagrees with the treesim model the run is abandoned (probe setup_abandoned): that is C09's property",
     "runs execute in-process (ISOLATION=thread): each run builds both trees, models and the Sim from scratch",
@@ -65,7 +65,7 @@ STEP_CAP = 400000
 ISOLATION = "thread"
 
 # states that run into defects already reported; see ASSUMPTIONS
-GUARDS = ("git_symlink_became_dir",)
+GUARDS = ("git_symlink_replaced", "git_dir_file_swap", "git_dir_rename")
 P_UNGUARDED = float(os.environ.get("VERIF_UNGUARDED", "0") or 0)
 P_LIFT = 0.15
 LAWS = ["other_is_base", "this_is_base", "identical", "disjoint", "disjoint"]
@@ -134,7 +134,14 @@ def op_paths(op, model):
     return out
 
 
-def gen_batch(rng, model, names, n, who, weights, counter):
+RESERVED = ("h1", "h2")  # edited by the criss-cross prelude only
+
+
+def dir_rename(op, model):
+    return op["o"] in ("rename", "move") and model.dkind(op["p"]) == T.DIR
+
+
+def gen_batch(rng, model, names, n, who, weights, counter, unguarded=()):
     """Up to n model-approved operations confined to `who`'s paths (None: anywhere)."""
     g = T.Gen(rng, model, names)
     g.n = counter[0]
@@ -153,6 +160,10 @@ def gen_batch(rng, model, names, n, who, weights, counter):
         if paths is None:
             continue
         if who is not None and any(owner(p) != who for p in paths):
+            continue
+        if any(T.inside(r, p) for p in paths for r in RESERVED):
+            continue
+        if model.flavour == "git" and "git_dir_rename" not in unguarded and dir_rename(op, model):
             continue
         if model.classify(op) != "ok":
             continue
@@ -185,12 +196,32 @@ def clean(model):
     return True
 
 
-def guarded_state(model):
-    """Name of the reported defect the THIS tree would run into at merge time, or None."""
-    if model.flavour == "git":
-        for q, (_fid, ikind) in model.inv.items():
-            if ikind == T.LINK and model.dkind(q) == T.DIR:
-                return "git_symlink_became_dir"
+def _dirs_nondirs(paths_kinds):
+    dirs, nondirs = set(), set()
+    for p, k in paths_kinds:
+        if k == T.DIR:
+            dirs.add(p)
+        else:
+            nondirs.add(p)
+            dirs.update(a for a in T.ancestors(p) if a)
+    return dirs, nondirs
+
+
+def guarded_state(m_this, m_base=None, m_other=None):
+    """Name of the reported defect (GUARDS) this merge would run into, or None."""
+    if m_this.flavour != "git":
+        return None
+    for q, (_fid, ikind) in m_this.inv.items():
+        if ikind == T.LINK and m_this.dkind(q) in (T.DIR, T.FILE):
+            return "git_symlink_replaced"
+    views = [_dirs_nondirs([(p, v[0]) for p, v in m_this.disk.items()] + [(p, m_this.inv[p][1]) for p in m_this.inv])]
+    for m in (m_base, m_other):
+        if m is not None:
+            views.append(_dirs_nondirs((p, e[1]) for p, e in m.basis.items() if p))
+    for i, (d1, _n1) in enumerate(views):
+        for j, (_d2, n2) in enumerate(views):
+            if i != j and d1 & n2:
+                return "git_dir_file_swap"
     return None
 
 
@@ -230,7 +261,7 @@ def _generate(rng):
         op = {"o": "write", "p": p, "n": counter[0]}
         model.apply(op)
         base.append(op)
-    base += gen_batch(rng, model, names, rng.randint(4, 12), None, BASE_WEIGHTS, counter)
+    base += gen_batch(rng, model, names, rng.randint(4, 12), None, BASE_WEIGHTS, counter, unguarded)
     counter[0] += 1
     op = {"o": "smart_add", "p": "", "n": counter[0]}
     if model.classify(op) != "ok":
@@ -243,7 +274,7 @@ def _generate(rng):
     # histories of the two sides
     def side(who_area, n, seed_model, tag, must_commit):
         m = seed_model.copy()
-        ops = gen_batch(rng, m, names, n, who_area, BATCH_WEIGHTS, counter)
+        ops = gen_batch(rng, m, names, n, who_area, BATCH_WEIGHTS, counter, unguarded)
         if must_commit:
             counter[0] += 1
             if not final_commit(m, ops, tag, 1700000000 + counter[0]):
@@ -277,6 +308,17 @@ def _generate(rng):
         other_ops, mo_ = side("other", n2, model, "other", True)
     if this_ops is None or other_ops is None:
         return None
+    if law == "identical" and not commit_this:
+        # "identical changes" must mean identical trees: an uncommitted THIS whose versioned
+        # files are missing from disk (or were re-typed on disk) is not the tree OTHER committed
+        m = model.copy()
+        for op in this_ops:
+            m.apply(op)
+        mo2 = model.copy()
+        for op in other_ops:
+            mo2.apply(op)
+        if model_view(m, fl)[1] != basis_view(mo2, fl)[1]:
+            commit_this = True
     if commit_this and law != "this_is_base":
         m = model.copy()
         ok = True
@@ -289,6 +331,8 @@ def _generate(rng):
         op = {"o": "commit", "paths": None, "rev": "this", "t": 1700000000 + counter[0]}
         if ok and m.classify(op) == "ok":
             this_ops = this_ops + [op]
+        elif law == "identical":
+            return None
         else:
             commit_this = False
     plan = {"flavour": fl, "law": law, "mtype": mtype, "criss": criss, "commit_this": commit_this, "names": names, "base": base, "this": this_ops, "other": other_ops, "n0": counter[0] + 1}
@@ -297,7 +341,12 @@ def _generate(rng):
         if m.classify(op) != "ok":
             return None
         m.apply(op)
-    g = guarded_state(m)
+    mo = model.copy()
+    for op in other_ops:
+        if mo.classify(op) != "ok":
+            return None
+        mo.apply(op)
+    g = guarded_state(m, model, mo)
     if g:
         if g not in unguarded:
             return None
@@ -349,6 +398,8 @@ def _h(obj):
 def run_ops(sim, tree, model, ops, who):
     """Apply a generated batch to a real tree and its model; any disagreement is C09's business."""
     for op in ops:
+        if model.flavour == "git" and who != "base" and dir_rename(op, model):
+            sim.notes["git_dir_rename"] = True
         if model.classify(op) != "ok":
             sim.event("skip", who, op["o"])
             raise Abandon("model declines %s on %s" % (json.dumps(op), who))
@@ -448,7 +499,7 @@ def execute(sim, plan):
         _execute(sim, plan, fl, law, mtype)
     except Abandon as e:
         sim.probe("setup_abandoned")
-        sim.event("abandoned", str(e)[:200])
+        sim.event("abandoned", str(e).split(" raised ")[0][:120])
         sim.nontrivial = False
 
 
@@ -499,7 +550,7 @@ def _execute(sim, plan, fl, law, mtype):
         raise Abandon("THIS differs from its model before the merge: %s" % _diff(model_view(m_this, fl)[0], before[0]))
     if m_other.changes():
         raise Abandon("OTHER has uncommitted changes")
-    g = guarded_state(m_this)
+    g = guarded_state(m_this, model, m_other) or ("git_dir_rename" if sim.notes.pop("git_dir_rename", None) else None)
     if g:
         if g not in plan.get("unguarded", ()):
             raise Abandon("guarded state %s" % g)
